@@ -19,8 +19,9 @@ EXPLANATION = (
     "_asdict(fields, exclude) call; (R20.3) line writer totality - every use of the format string is dominated by its "
     "definition on the paths where the loop body runs, one 'name = value' line per item of the same dict that sized the "
     "format, a numbered block per record; (R20.4) the text writer renders repr(rec) or format_map over ALL fields of the "
-    "record with missing keys tolerated, and appends one newline. NOT decided: that a CSV parser recovers every cell, repr of "
-    "every field type, what the sniffer concludes from its sample; (R20.5) only that the CSV reader sniffs from a block of the file rather than the header line."
+    "record with missing keys tolerated, appends one newline and writes the rendering as rendered (no later rewrite of the text); "
+    "(R20.5) the CSV reader sniffs the dialect from a block read of the file, not from the header line alone. NOT decided: that a "
+    "CSV parser recovers every cell, repr of every field type, what the sniffer concludes from its sample."
 )
 RULE_SUMMARY = "instances: encode / open sinks, header-branch paths, uses of the line format, text-writer mappings"
 
@@ -261,7 +262,8 @@ def run(ctx):
     if len(wcalls) == 1 and wcalls[0].args:
         tcfg = CFG(tw)
         wn = tcfg.node_of(wcalls[0])
-        written = [n for n in ast.walk(wcalls[0].args[0]) if isinstance(n, ast.Name) and n.id not in (rec, "self")]
+        tw_locals = {n.id for n in ast.walk(tw) if isinstance(n, ast.Name) and isinstance(n.ctx, ast.Store)}
+        written = [n for n in ast.walk(wcalls[0].args[0]) if isinstance(n, ast.Name) and n.id in tw_locals and n.id not in (rec, "self")]
         for nm in written:
             for d in tcfg.reaching_defs(nm.id).get(wn.id, set()):
                 da = tcfg.nodes[d].ast
